@@ -162,6 +162,10 @@ def ctx_read(ctx):
             continue
         replica = ('field', ('param', 1), r['clock'])
         errs = []
+        rr = drop_lv(interp(facts, body).ret)
+        if is_call(rr, 'map') and rr[2] and set(iter_adaptors(rr[2][0])) & (LOSSY_ADAPTORS | {'filter_map'}):
+            errs.append('the per-item read does not yield every entry (%s in the iterator chain)'
+                        % sorted(set(iter_adaptors(rr[2][0])) & (LOSSY_ADAPTORS | {'filter_map'})))
         for agg in aggs:
             f = dict(agg[3])
             add, rmc, val = f.get('add_clock'), f.get('rm_clock'), f.get('val')
@@ -268,7 +272,10 @@ def ctx_ops(ctx):
             f = dict(r[3])
             src_ok = drop_lv(f.get(opf, ('undef',))) == ('field', ('param', ci), fld)
             mem = f.get('members', ('undef',))
-            mem_ok = any(st == ('param', 2) for st in subterms(drop_lv(mem)))
+            # the listed members are the argument, all of it: no filtering / truncating adaptor between the argument and the op
+            mem_ok = any(st == ('param', 2) for st in subterms(drop_lv(mem))) and not any(
+                st[0] == 'call' and call_name(st) in (LOSSY_ADAPTORS | {'filter_map', 'retain', 'dedup', 'truncate', 'pop', 'remove'})
+                for st in subterms(drop_lv(mem)))
             ok = src_ok and mem_ok
         ctx.check(ok, 'Orswot::' + name, body, '%s{%s: ctx.%s, members from the argument}' % (want_variant, opf, fld),
                   'Orswot::%s builds %s' % (name, fmt(r, 5)), props=['C07', 'C04'])
